@@ -22,7 +22,16 @@ RULE = ('every Matrix operation (copy/to_wirevector round trip, + - * scalar* @ 
         'axis reductions); CHAINED operations op2(op1(A..), B) with op1 in {copy, transpose, reversed, '
         'flatten, reshape, getitem block, hstack/vstack/concatenate, put, setitem, bits setter} and op2 in '
         '{+, *, @, **2, dot} are built with all-max values and checked for the documented width and the '
-        'exact value of op2 (so a wrong bits/max_bits on the intermediate shows); the catalogue = '
+        'exact value of op2 (so a wrong bits/max_bits on the intermediate shows); HISTORIES: seeded random call '
+        'sequences (4-9 steps quick, 4-12 thorough; 140 / 900 sequences) on a pool of 1-3 Input-driven matrices '
+        'plus everything the calls create: to_wirevector probes, copy, transpose, reversed, block slices, '
+        'reshape/flatten, ** n, + - * @, single- and multi-argument hstack/vstack/concatenate, axis reductions, '
+        'every augmented assignment (+= -= *= @= **=, also with an operand aliasing the target), __setitem__ with '
+        'scalar and Matrix values, put, repeated bits-setter narrowing and widening; operands are drawn with a '
+        'bias to recently touched objects; after EVERY step the rows/columns/bits/max_bits/signed attributes '
+        'and (in 3 of 4 sequences after every step, otherwise at the end) the simulated to_wirevector() value '
+        'of EVERY object in the pool, operands included, are compared with a value-level reference of the '
+        'sequence and with the Coq pool model prun; a failing history is shrunk by dropping steps; the catalogue = '
         'every op on tiny shapes + systematic argument sweeps on six mid-size shapes + directed '
         'small-max_bits cases + seeded random cases; element values are exhaustive when all operands '
         'together have <= 8 input bits (<= 12 for the tiny-shape set in the thorough tier), otherwise '
